@@ -393,7 +393,8 @@ def migration7(tdset):
     # We have a valid summary table.
     source_table_name = m.group(1)
     source_table_ref = table_name_to_ref[source_table_name]
-    groupby_colrefs = [int(x) for x in m.group(2).strip("_").split("_")]
+    # (The list of group-by columns may be empty: a summary of the whole table.)
+    groupby_colrefs = [int(x) for x in m.group(2).strip("_").split("_") if x]
     # Prepare a new-style name for the summary table. Be sure not to conflict with existing tables
     # or with each other (i.e. don't rename multiple tables to the same name).
     groupby_col_ids = [columns_map_by_ref[c].colId for c in groupby_colrefs]
